@@ -50,7 +50,7 @@ def run(ctx):
                        "sampled, tagged, host-tagged, needing normalisation; every rejection reason; empty line; event) x trailing "
                        "newline x ignore-host, alternating namespaces, through four long-lived real DatagramParsers; "
                        "distinct_nontrivial = distinct datagram texts with >= 2 lines")
-    for need in ("bad-and-good-mixed", "gauge-set-twice", "lines:3"):
+    for need in ("bad-and-good-mixed", "gauge-set-twice", "lines:3", "tag-buffers-pre-sized"):
         if named.get(need, 0) == 0 and not (ctx.violations or locals().get("fails")):  # no vacuity verdict once something was found
             raise vlib.MachineryError("vacuity: %s never reached" % need)
     seen = set()
